@@ -1,6 +1,7 @@
 /- Driver handlers for the regex model. -/
 import PflDrv.FA
 import Pfl.Model.Regex
+import Pfl.Model.ToRegex
 open Lean Pfl
 namespace PflDrv
 
@@ -81,6 +82,16 @@ def rxHandle (op : String) (j : Json) : R Json := do
     | none => throw "fuel"
     | some r => pure (Json.mkObj [("equiv", jBool r.isNone),
         ("word", jOpt (jList jStr) (r.map fun w => w.map fun k => tbl.getD k "?"))])
+  | "rx.toRegex" =>   -- tree-level model of EpsilonNFA.to_regex
+    let A ← asENFA (← field j "A")
+    let names ← asStrList (← field j "symNames")
+    -- orders: list of [final, [state | null, ...]]
+    let orders ← (← asArr (← field j "orders")).mapM fun e => do
+      match ← asArr e with
+      | [f, l] => pure ((← asNat f), (← (← asArr l).mapM fun x => if x.isNull then pure none else some <$> asNat x))
+      | _ => throw "bad order"
+    let order : Nat → List (Option Nat) := fun f => ((orders.find? (·.1 = f)).map (·.2)).getD []
+    pure (jRx (A.toRegexRx (fun k => names.getD k "?") order))
   | _ => throw s!"unknown op {op}"
 
 end PflDrv
